@@ -19,9 +19,10 @@ EXPLANATION = (
 RULES = {
     "R1": "save/load agreement: group naming vs visiting order, dataset/attr symmetry, no narrowing, field sets of both sample classes",
     "R2": "chain-major: combine = self + other, left fold, chain ids built from the same list in the same order with per-file sizes",
+    "R4": "what is saved is what was sampled: the samples' fields are written from their live attribute dictionaries, so nothing on the prediction path may store an attribute on a sample (or on anything else it does not own) (C09.R1 run here)",
     "R3": "guards: add_theta refuses when full, get_theta refuses out-of-range, save_h5 refuses empty",
 }
-MIN = {"R1": 9, "R2": 4, "R3": 3}
+MIN = {"R1": 9, "R2": 4, "R3": 3, "R4": 8}
 TRUSTED = ["h5py iterates a group's members in alphabetical (string) order unless that group was created with track_order=True",
            "h5py round-trips float64/int64 arrays and python float attributes exactly"]
 TECHNIQUE = "writer/reader idiom pairing on the syntax tree, list-order provenance, guard dominance with integer relational normal forms"
@@ -696,7 +697,12 @@ def inline_props(t):
     return t
 
 
-RULE_FUNCS = [r1, r2, r3]
+def r4(ctx):
+    from . import C09
+    ctx.borrow(C09.r1, "R4")
+
+
+RULE_FUNCS = [r1, r2, r3, r4]
 
 
 def run(ctx):
@@ -713,6 +719,7 @@ def _rep(a, b):
 
 
 WITNESSES = [
+    ("prediction memoised on the sample", "batchie.models.main", _rep("        theta = thetas.get_theta(theta_index)\n        result[theta_index, :] = theta.predict_viability(screen)\n", "        theta = thetas.get_theta(theta_index)\n        result[theta_index, :] = theta.predict_viability(screen)\n        theta._last_viability = result[theta_index, :]\n"), ["R4"]),
     ("shared export kept on the sample", "batchie.models.sparse_combo_interaction",
      _rep("        return params\n\n    @classmethod\n    def from_dicts(cls, private_params: dict, shared_params: dict):\n        single_effect_lookup_keys = zip(",
           "        self._shared_parameters = params\n        return params\n\n    @classmethod\n    def from_dicts(cls, private_params: dict, shared_params: dict):\n        single_effect_lookup_keys = zip("), ["R1"]),
